@@ -46,9 +46,73 @@ def exprs_for(o, kw, rng, npert):
     return ex
 
 
+def _judge_run(o, L, x, prim=False):
+    """(reasons for a difference, discrete signature, distance) of one model outcome against the implementation's"""
+    if prim:
+        code, payload, n, evals = parse(x)
+        dirs = None
+    else:
+        dirs, code, payload, n = parse(x)
+    d = payload[0] if payload else None
+    why = []
+    if not prim:
+        n_impl = len(o["s0"])
+        if len(dirs) != n_impl or code == -3:
+            why.append(f"model stops after {len(dirs)} support evaluations (code {code}), implementation made {n_impl}")
+        for kstep, (dm, di) in enumerate(zip(dirs, o["dirs"])):
+            if not vclose(dm, di):
+                why.append(f"direction of support evaluation {kstep}: model {dm} implementation {di}")
+                break
+    if code in (0, 1):
+        if bool(code) != o["contact"]:
+            why.append(f"contact: model {bool(code)} implementation {o['contact']}")
+        if d is None or not (abs(d - o["d"]) <= 1e-9 * L + 1e-9 * abs(o["d"])):
+            why.append(f"distance: model {d} implementation {o['d']}")
+        if n != o["iterations"]:
+            why.append(f"iterations: model {n} implementation {o['iterations']}")
+    elif not why:
+        why.append(f"model outcome code {code} but the implementation returned {o.get('d')}")
+    sig = (code, n, (evals if prim else len(dirs)))
+    return why, sig, d
+
+
+def _two_pass(pid, items, first_expr, variants_expr, judge, tag, npert):
+    """first pass on the recorded inputs; perturbed copies (near-tie detection) only for the runs that differ"""
+    outs = cm.coq_eval_lines(pid, HEADER, [first_expr(it) for it in items], tag=tag, per_file=40, timeout=1500)
+    verdicts, suspects = [], []
+    for it, x in zip(items, outs):
+        why, sig, d = judge(it, x)
+        verdicts.append((it, why, sig, d))
+        if why:
+            suspects.append((it, why, sig, d))
+    mism, unstable_n = [], 0
+    if suspects:
+        npv = max(npert, 8)
+        ex = []
+        for (it, why, sig, d) in suspects:
+            ex += variants_expr(it, npv)
+        o2 = cm.coq_eval_lines(pid, HEADER, ex, tag=tag + "_p", per_file=40, timeout=1500)
+        for k, (it, why, sig, d) in enumerate(suspects):
+            unstable = False
+            spread = 0.0
+            for x in o2[npv * k: npv * (k + 1)]:
+                w2, s2, d2 = judge(it, x)
+                if s2 != sig:
+                    unstable = True
+                if d is not None and d2 is not None and np.isfinite(d) and np.isfinite(d2):
+                    spread = max(spread, abs(d - d2))
+            # a distance difference within 100x the model's own sensitivity to 1-10 ulp perturbations is rounding
+            only_distance = all(w.startswith("distance:") for w in why)
+            if unstable or (only_distance and d is not None and abs(d - it[2]["d"]) <= 100.0 * spread):
+                unstable_n += 1
+            else:
+                mism.append((it, why))
+    return verdicts, mism, unstable_n
+
+
 def compare(pid, cases, results, rng, L_of, tag="nestcorr", npert=NPERT):
-    exprs, idx = [], []
     stats = dict(compared=0, matched=0, skipped_unstable=0, skipped_exception=0, mismatch=0, steps=0, exits={})
+    items = []
     for i, (c, r) in enumerate(zip(cases, results)):
         for key in ("plain", "acc"):
             o = r.get(key)
@@ -57,57 +121,25 @@ def compare(pid, cases, results, rng, L_of, tag="nestcorr", npert=NPERT):
             if "exc" in o or o.get("type0") not in CTYPE or o.get("type1") not in CTYPE:
                 stats["skipped_exception"] += 1
                 continue
-            ex = exprs_for(o, c.get("kw", {}), rng, npert)
-            idx.append((i, key, len(exprs), len(ex)))
-            exprs += ex
-    if not exprs:
+            items.append((i, key, o))
+    if not items:
         return stats, []
-    outs = cm.coq_eval_lines(pid, HEADER, exprs, tag=tag, per_file=40, timeout=1500)
-    mism = []
-    for (i, key, start, k) in idx:
-        c, o = cases[i], results[i][key]
-        L = L_of(c)
-        ms = []
-        for x in outs[start:start + k]:
-            dirs, code, payload, n = parse(x)
-            ms.append(dict(dirs=dirs, code=code, d=(payload[0] if payload else None), n=n))
-        m0 = ms[0]
-        kf = lambda m: (m["code"], m["n"], len(m["dirs"]))  # noqa
-        unstable = any(kf(m) != kf(m0) for m in ms[1:])
+    verdicts, mism_, unstable_n = _two_pass(
+        pid, items,
+        lambda it: exprs_for(it[2], cases[it[0]].get("kw", {}), rng, 0)[0],
+        lambda it, npv: exprs_for(it[2], cases[it[0]].get("kw", {}), rng, npv)[1:],
+        lambda it, x: _judge_run(it[2], L_of(cases[it[0]]), x), tag, npert)
+    for (it, why, sig, d) in verdicts:
         stats["compared"] += 1
-        n_impl = len(o["s0"])
-        stats["steps"] += n_impl
-        why = []
-        if len(m0["dirs"]) != n_impl or m0["code"] == -3:
-            why.append(f"model stops after {len(m0['dirs'])} support evaluations (code {m0['code']}), implementation made {n_impl}")
-        for kstep, (dm, di) in enumerate(zip(m0["dirs"], o["dirs"])):
-            if not vclose(dm, di):
-                why.append(f"direction of support evaluation {kstep}: model {dm} implementation {di}")
-                break
-        if m0["code"] in (0, 1):
-            ex_name = f"{key}:{'inside' if m0['code'] else 'separated'}"
-            stats["exits"][ex_name] = stats["exits"].get(ex_name, 0) + 1
-            if bool(m0["code"]) != o["contact"]:
-                why.append(f"contact: model {bool(m0['code'])} implementation {o['contact']}")
-            spread = 0.0
-            for m in ms[1:]:
-                if m["d"] is not None and m0["d"] is not None and np.isfinite(m["d"]) and np.isfinite(m0["d"]):
-                    spread = max(spread, abs(m["d"] - m0["d"]))
-            if m0["d"] is None or not (abs(m0["d"] - o["d"]) <= 1e-9 * L + 1e-9 * abs(o["d"]) + 100.0 * spread):
-                why.append(f"distance: model {m0['d']} implementation {o['d']}")
-            if m0["n"] != o["iterations"]:
-                why.append(f"iterations: model {m0['n']} implementation {o['iterations']}")
-        elif not why:
-            why.append(f"model outcome code {m0['code']} but the implementation returned {o.get('d')}")
-        if why:
-            if unstable:
-                stats["skipped_unstable"] += 1
-            else:
-                stats["mismatch"] += 1
-                mism.append((i, key, "; ".join(why)))
-        else:
+        stats["steps"] += len(it[2]["s0"])
+        if sig[0] in (0, 1):
+            nm = f"{it[1]}:{'inside' if sig[0] else 'separated'}"
+            stats["exits"][nm] = stats["exits"].get(nm, 0) + 1
+        if not why:
             stats["matched"] += 1
-    return stats, mism
+    stats["skipped_unstable"] = unstable_n
+    stats["mismatch"] = len(mism_)
+    return stats, [(it[0], it[1], "; ".join(why)) for (it, why) in mism_]
 
 
 def _m(m):
@@ -134,8 +166,8 @@ def prim_exprs(o, kw, rng, npert):
 
 def compare_prim(pid, cases, results, rng, L_of, tag="primcorr", npert=NPERT):
     """gjk_nesterov_accelerated_primitives against the model RUN from get_minkowski_diff's tuple (no trace)."""
-    exprs, idx = [], []
     stats = dict(compared=0, matched=0, skipped_unstable=0, skipped_exception=0, mismatch=0, model_evals=0, exits={})
+    items = []
     for i, (c, r) in enumerate(zip(cases, results)):
         for key in ("prim_plain", "prim_acc"):
             o = r.get(key)
@@ -144,50 +176,25 @@ def compare_prim(pid, cases, results, rng, L_of, tag="primcorr", npert=NPERT):
             if "exc" in o or o.get("type0") not in CTYPE or o.get("type1") not in CTYPE:
                 stats["skipped_exception"] += 1
                 continue
-            ex = prim_exprs(o, c.get("kw", {}), rng, npert)
-            idx.append((i, key, len(exprs), len(ex)))
-            exprs += ex
-    if not exprs:
+            items.append((i, key, o))
+    if not items:
         return stats, []
-    outs = cm.coq_eval_lines(pid, HEADER, exprs, tag=tag, per_file=40, timeout=1500)
-    mism = []
-    for (i, key, start, k) in idx:
-        c, o = cases[i], results[i][key]
-        L = L_of(c)
-        ms = []
-        for x in outs[start:start + k]:
-            code, payload, n, evals = parse(x)
-            ms.append(dict(code=code, d=(payload[0] if payload else None), n=n, evals=evals))
-        m0 = ms[0]
-        kf = lambda m: (m["code"], m["n"], m["evals"])  # noqa
-        unstable = any(kf(m) != kf(m0) for m in ms[1:])
+    verdicts, mism_, unstable_n = _two_pass(
+        pid, items,
+        lambda it: prim_exprs(it[2], cases[it[0]].get("kw", {}), rng, 0)[0],
+        lambda it, npv: prim_exprs(it[2], cases[it[0]].get("kw", {}), rng, npv)[1:],
+        lambda it, x: _judge_run(it[2], L_of(cases[it[0]]), x, prim=True), tag, npert)
+    for (it, why, sig, d) in verdicts:
         stats["compared"] += 1
-        stats["model_evals"] += m0["evals"]
-        why = []
-        if m0["code"] in (0, 1):
-            ex_name = f"{key}:{'inside' if m0['code'] else 'separated'}"
-            stats["exits"][ex_name] = stats["exits"].get(ex_name, 0) + 1
-            if bool(m0["code"]) != o["contact"]:
-                why.append(f"contact: model {bool(m0['code'])} implementation {o['contact']}")
-            spread = 0.0
-            for m in ms[1:]:
-                if m["d"] is not None and m0["d"] is not None and np.isfinite(m["d"]) and np.isfinite(m0["d"]):
-                    spread = max(spread, abs(m["d"] - m0["d"]))
-            if m0["d"] is None or not (abs(m0["d"] - o["d"]) <= 1e-9 * L + 1e-9 * abs(o["d"]) + 100.0 * spread):
-                why.append(f"distance: model {m0['d']} implementation {o['d']}")
-            if m0["n"] != o["iterations"]:
-                why.append(f"iterations: model {m0['n']} implementation {o['iterations']}")
-        else:
-            why.append(f"model outcome code {m0['code']} but the implementation returned {o.get('d')}")
-        if why:
-            if unstable:
-                stats["skipped_unstable"] += 1
-            else:
-                stats["mismatch"] += 1
-                mism.append((i, key, "; ".join(why)))
-        else:
+        stats["model_evals"] += sig[2]
+        if sig[0] in (0, 1):
+            nm = f"{it[1]}:{'inside' if sig[0] else 'separated'}"
+            stats["exits"][nm] = stats["exits"].get(nm, 0) + 1
+        if not why:
             stats["matched"] += 1
-    return stats, mism
+    stats["skipped_unstable"] = unstable_n
+    stats["mismatch"] = len(mism_)
+    return stats, [(it[0], it[1], "; ".join(why)) for (it, why) in mism_]
 
 
 # ----------------------------------------------------------------------------- unit correspondence of the simplex projections
@@ -232,15 +239,20 @@ def compare_projections(pid, rng, n, trace_lines=True, tag="projcorr", per_leaf=
     simp = gen_simplices(rng, n)
     directed, leaf_hist = leaf_directed_tetrahedra(rng, per_leaf=per_leaf, budget=budget)
     simp += directed
-    res = cm.run_impl_parallel(pid, "narrowbproj", [dict(simplices=simp[i::8], trace_lines=trace_lines and i == 0) for i in range(8)],
-                               timeout=900, tag="proj")
+    # the calls themselves take microseconds: one worker for all of them, a second one for the traced (interpreted) subset
+    nw_ = 2 if len(simp) > 3000 else 1
+    payloads = [dict(simplices=simp[i::nw_], trace_lines=False) for i in range(nw_)]
+    if trace_lines:
+        payloads.append(dict(simplices=directed[::3] + simp[:60], trace_lines=True))
+    res = cm.run_impl_parallel(pid, "narrowbproj", payloads, timeout=900, tag="proj")
     impl = [None] * len(simp)
     hits = {}
     for w, rr in enumerate(res):
         if rr["status"] != "ok":
             raise RuntimeError(f"projection worker failed: {rr.get('log', '')[-300:]}")
-        for i, x in zip(range(w, len(simp), 8), rr["result"]["results"]):
-            impl[i] = x
+        if w < nw_:
+            for i, x in zip(range(w, len(simp), nw_), rr["result"]["results"]):
+                impl[i] = x
         for k, v in rr["result"].get("hits", {}).items():
             hits.setdefault(k, set()).update(v)
 
